@@ -587,7 +587,7 @@ func TestVerif_C02(t *testing.T) {
 		}
 	}
 	seed := vSeed()
-	nw := vN(2, 200)
+	nw := vN(2, 60)
 	for i := 0; i < nw; i++ {
 		env.workload(w, c02WorkIn{Kind: "workload", Seed: seed*100 + int64(i), Clients: 6, Keys: 4, Millis: 5000, Stepdowns: 3})
 	}
